@@ -14,6 +14,7 @@ import (
 	"os"
 	"os/exec"
 	"path/filepath"
+	"regexp"
 	"sort"
 	"strconv"
 	"strings"
@@ -924,7 +925,12 @@ func (x *Exec) buildReplay(repo, vdir, dir, prop string, ob *Obligation, r Solve
 	}
 	t := x.targetOf(ob)
 	if t == nil {
-		doc.Note = "no generic harness for this function (generic, closure, or heap-dependent inputs); the failed obligation and solver output stand as the report"
+		if x.runScenario(repo, vdir, ob, doc) {
+			return finish()
+		}
+		if doc.Note == "" {
+			doc.Note = "no generic harness for this function (generic, closure, or heap-dependent inputs) and no scenario test matched; the failed obligation and solver output stand as the report"
+		}
 		return finish()
 	}
 	paramT := map[string]types.Type{}
@@ -1028,7 +1034,69 @@ func (x *Exec) buildReplay(repo, vdir, dir, prop string, ob *Obligation, r Solve
 			}
 		}
 	}
+	x.runScenario(repo, vdir, ob, doc)
 	return finish()
+}
+
+type scenarioEntry struct {
+	Obligation string `json:"obligation"`
+	Pkg        string `json:"pkg"`
+	File       string `json:"file"`
+	Test       string `json:"test"`
+	What       string `json:"what"`
+	Race       bool   `json:"race"`
+}
+
+// runScenario runs the hand-written scenario test registered for this
+// obligation class (multi-step histories that a solver model over one call
+// cannot express).  The scenario fails on the real code exactly when the
+// behaviour the obligation protects is broken.
+func (x *Exec) runScenario(repo, vdir string, ob *Obligation, doc *replayDoc) bool {
+	var idx []scenarioEntry
+	if err := loadJSON(filepath.Join(vdir, "scenarios", "index.json"), &idx); err != nil {
+		return false
+	}
+	for _, sc := range idx {
+		re, err := regexp.Compile(sc.Obligation)
+		if err != nil || !re.MatchString(ob.Name) {
+			continue
+		}
+		src := filepath.Join(vdir, "scenarios", sc.File)
+		pkgDir := filepath.Join(repo, sc.Pkg)
+		ov := map[string]any{"Replace": map[string]string{filepath.Join(pkgDir, "zz_govc_scenario_test.go"): src}}
+		gen := filepath.Join(repo, "webserver/dashboard/csp/hashes_gen.go")
+		if _, err := os.Stat(gen); err != nil {
+			stub := filepath.Join(scratch(), "csp_stub.go")
+			os.WriteFile(stub, []byte(cspStub), 0o644)
+			ov["Replace"].(map[string]string)[gen] = stub
+		}
+		ovFile := filepath.Join(scratch(), fmt.Sprintf("overlay_sc_%d.json", time.Now().UnixNano()))
+		b, _ := json.Marshal(ov)
+		os.WriteFile(ovFile, b, 0o644)
+		args := []string{"test", "-overlay", ovFile, "-vet=off", "-count=1", "-timeout", "120s", "-run", "^" + sc.Test + "$", "./" + sc.Pkg}
+		if sc.Race {
+			args = append(args[:1], append([]string{"-race"}, args[1:]...)...)
+		}
+		cmd := exec.Command("go", args...)
+		cmd.Dir = repo
+		cmd.Env = append(os.Environ(), "GOFLAGS=-mod=mod", "GOPROXY=off")
+		out, err := cmd.CombinedOutput()
+		doc.Test = src
+		doc.Command = "cd " + repo + " && GOFLAGS=-mod=mod GOPROXY=off go " + strings.Join(args, " ") + "   # overlay places " + src + " into ./" + sc.Pkg
+		failed := err != nil && (strings.Contains(string(out), "--- FAIL") || strings.Contains(string(out), "panic:") || strings.Contains(string(out), "DATA RACE"))
+		if failed {
+			doc.Confirmed = true
+			doc.WitnessHow = "scenario test " + sc.Test + " (" + sc.What + ") fails on the real code"
+			doc.Observed = tail(string(out), 1500)
+			return true
+		}
+		if err != nil {
+			doc.Note = "scenario test did not build or run: " + tail(string(out), 800)
+		} else {
+			doc.Note = "scenario test " + sc.Test + " passes on the real code: no failing history found"
+		}
+	}
+	return false
 }
 
 func tail(s string, n int) string {
